@@ -785,3 +785,11 @@ pub(crate) fn verif_encode_int(value: usize, prefix_bits: usize, first_byte: u8)
     encode_int(value, prefix_bits, first_byte, &mut dst);
     dst.to_vec()
 }
+
+#[cfg(feature = "hyperium_h2_verif")]
+impl Encoder {
+    /// (entries newest first, size, max_size)
+    pub(crate) fn verif_table(&self) -> (Vec<(Vec<u8>, Vec<u8>)>, usize, usize) {
+        self.table.verif_stats()
+    }
+}
